@@ -272,7 +272,8 @@ pub fn layout_module(l: &Layout) -> String {
                 let all = if w >= 2 { format!("    #[bits(0..={}, rw)]\n    all: u{w},\n", w - 1) } else { String::new() };
                 let _ = writeln!(
                     o,
-                    "#[bitfield(u{w})]\n#[derive(Debug, PartialEq, Eq)]\npub struct N{j} {{\n    #[bit(0, rw)]\n    b0: bool,\n{all}}}"
+                    "#[bitfield(u{w})]\n#[derive({})]\npub struct N{j} {{\n    #[bit(0, rw)]\n    b0: bool,\n{all}}}",
+                    if std::env::var("SIMGEN_NO_DERIVE_EQ").map_or(false, |v| v == "1") { "Debug" } else { "Debug, PartialEq, Eq" }
                 );
             }
             Kind::User => {
@@ -317,7 +318,11 @@ pub fn layout_module(l: &Layout) -> String {
     let debug_attr = if l.debug { ", debug" } else { "" };
     let mut macro_types: Vec<String> = Vec::new();
     let struct_start = o.len();
-    let _ = writeln!(o, "#[bitfield({}{}{})]\n#[derive(PartialEq, Eq)]\npub struct T {{", base_ty(n), default_attr, debug_attr);
+    // SIMGEN_NO_DERIVE_EQ=1 (set by the orchestrator only after a build in which every layout failed
+    // with "conflicting implementations of trait PartialEq"): the macro under test provides
+    // equality itself, so the derive is left out and the glue uses the macro's `==`
+    let derive = if std::env::var("SIMGEN_NO_DERIVE_EQ").map_or(false, |v| v == "1") { "" } else { "#[derive(PartialEq, Eq)]\n" };
+    let _ = writeln!(o, "#[bitfield({}{}{})]\n{}pub struct T {{", base_ty(n), default_attr, debug_attr, derive);
     for (j, f) in l.fields.iter().enumerate() {
         let mut et = elem_type(f, j);
         if f.syntax == 4 {
